@@ -5,6 +5,7 @@ open Proto C20
 /-! Line protocol of the C20 model driver.
   `(run   (code (<init stmts>) <lo> <body>) <ub> <nargs> <ndofs> (env (flds (v..)..) (scals v..) (rnd v..)))`
   `(apply <doc> <n> <nargs> <ndofs> (env ...))`
+  `(prog ((init <stmt>) | (loop <lo> <ub> (<stmts>)) ...) <nargs> <ndofs> (env ...))`   -- fused invoke
   `(def <expr> <df> (env ...))`   -- definedAt
 answer: `(flds (v ..) ..) (scals v ..)` of the final state, values as `n` or `n/d`. -/
 
@@ -79,6 +80,13 @@ def handle (s : Sexp) : String :=
     showEnv (c.run (ub.nat?.getD 0) (parseEnv env)) (nargs.nat?.getD 0) (ndofs.nat?.getD 0)
   | .list [.atom "apply", d, n, nargs, ndofs, env] =>
     showEnv ((parseDoc d).apply (n.nat?.getD 0) (parseEnv env)) (nargs.nat?.getD 0) (ndofs.nat?.getD 0)
+  | .list [.atom "prog", .list items, nargs, ndofs, env] =>
+    let its : List Item := items.map fun it =>
+      match it with
+      | .list [.atom "init", st] => Item.init (parseStmt st)
+      | .list [.atom "loop", lo, ub, .list body] => Item.loop (lo.nat?.getD 0) (ub.nat?.getD 0) (body.map parseStmt)
+      | _ => Item.init (.rand 99)
+    showEnv (runProg its (parseEnv env)) (nargs.nat?.getD 0) (ndofs.nat?.getD 0)
   | .list [.atom "def", e, df, env] =>
     toString (definedAt (parseEnv env) (df.nat?.getD 0) (parseExpr e))
   | _ => "bad-request"
